@@ -283,10 +283,10 @@ func c30Run(r *vkit.Run, c *c30Case, encKind string) (nontrivial bool) {
 
 func c30Check(r *vkit.Run, c *c30Case) {
 	nt := false
-	if r.Try(func() interface{} { return map[string]interface{}{"case": c, "encoder": "bfe"} }, func() { nt = c30Run(r, c, "bfe") }) {
+	if r.Try(func() interface{} { return c }, func() { nt = c30Run(r, c, "bfe") }) {
 		return
 	}
-	if r.Try(func() interface{} { return map[string]interface{}{"case": c, "encoder": "xnet"} }, func() { c30Run(r, c, "xnet") }) {
+	if r.Try(func() interface{} { return c }, func() { c30Run(r, c, "xnet") }) {
 		return
 	}
 	var sb strings.Builder
